@@ -53,9 +53,46 @@ type plan struct {
 	viewAmbiguous bool
 	// what the conflict is about (classes)
 	typeConflict, helpConflict bool
+	// same instrument name and unit, another data shape (classes)
+	twins, twinsSameScope bool
 }
 
-func (p *plan) strong() bool { return !p.clash && !p.odd && !p.alias && !p.scopeAlias }
+// shape is the kind of data an instrument produces.
+func shape(kind string) string {
+	switch {
+	case isCounter(kind):
+		return "monotonic_sum"
+	case isHist(kind):
+		return "histogram"
+	case isGauge(kind):
+		return "gauge"
+	}
+	return "sum"
+}
+
+func dataShape(a metricdata.Aggregation) string {
+	switch d := a.(type) {
+	case metricdata.Sum[int64]:
+		if d.IsMonotonic {
+			return "monotonic_sum"
+		}
+		return "sum"
+	case metricdata.Sum[float64]:
+		if d.IsMonotonic {
+			return "monotonic_sum"
+		}
+		return "sum"
+	case metricdata.Gauge[int64], metricdata.Gauge[float64]:
+		return "gauge"
+	case metricdata.Histogram[int64], metricdata.Histogram[float64], metricdata.ExponentialHistogram[int64], metricdata.ExponentialHistogram[float64]:
+		return "histogram"
+	}
+	return ""
+}
+
+func (p *plan) strong() bool {
+	return !p.clash && !p.odd && !p.alias && !p.scopeAlias && !p.viewAmbiguous
+}
 
 // accepted: the registry must accept every scrape (Gather returns no error).
 // That is every strong case and every case whose only weakness is a clash
@@ -122,7 +159,8 @@ func newPlan(c *Case) *plan {
 			}
 			p.typeConflict = p.typeConflict || wt(o.Kind) != wt(in.Kind)
 			p.helpConflict = p.helpConflict || (wt(o.Kind) == wt(in.Kind) && o.Desc != in.Desc)
-			if o.Name == in.Name && (o.ExpSize != 0 || o.ExDrop || in.ExpSize != 0 || in.ExDrop) {
+			if o.Name == in.Name && !isObservable(o.Kind) && !isObservable(in.Kind) && instrumentKind(o.Kind) == instrumentKind(in.Kind) &&
+				(o.ExpSize != 0 || o.ExDrop || in.ExpSize != 0 || in.ExDrop) {
 				p.viewAmbiguous = true
 			}
 		}
@@ -132,11 +170,23 @@ func newPlan(c *Case) *plan {
 			}
 			seen[k] = i
 		}
-		ln := strings.ToLower(in.Name)
-		if _, ok := lower[ln]; ok {
-			p.clash = true
+		// The SDK identifies instruments of one scope by lower-cased name and
+		// kind. Two instruments of ONE scope with the same spelling but another
+		// data shape (monotonic sum / other sum / gauge / histogram) are
+		// distinct streams the oracle can tell apart; any other coincidence
+		// of names inside a scope is treated as a clash. Across scopes only
+		// the exported names decide (clash keys above).
+		for j := 0; j < i; j++ {
+			o := &c.Insts[j]
+			if o.Scope == in.Scope && strings.EqualFold(o.Name, in.Name) && !(o.Name == in.Name && shape(o.Kind) != shape(in.Kind)) {
+				p.clash = true
+			}
+			if o.Name == in.Name && o.Unit == in.Unit && shape(o.Kind) != shape(in.Kind) {
+				p.twins = true
+				p.twinsSameScope = p.twinsSameScope || o.Scope == in.Scope
+			}
 		}
-		lower[ln] = i
+		_ = lower
 		if in.Odd {
 			p.odd = true
 		}
@@ -674,7 +724,7 @@ func (k *checker) exact(tag string, mfs []*dto.MetricFamily, gerr error, rm *met
 				continue
 			}
 			for _, m := range sm.Metrics {
-				if m.Name == in.Name {
+				if m.Name == in.Name && dataShape(m.Data) == shape(in.Kind) {
 					data = m.Data
 				}
 			}
@@ -1097,6 +1147,10 @@ func classify(c *Case, p *plan, info *vk.Info) {
 		}
 	}
 	info.ClassIf(p.scopeAlias, "weak:scope_info_series_alias_after_merge")
+	info.ClassIf(p.twins, "same_instrument_name_and_unit_other_kind")
+	info.ClassIf(p.twins && p.strong(), "same_instrument_name_and_unit_other_kind(strong: exported names differ)")
+	info.ClassIf(p.twinsSameScope && p.strong(), "same_instrument_name_and_unit_other_kind_in_one_scope(strong)")
+	info.ClassIf(p.viewAmbiguous, "weak:view_matches_two_instruments")
 	info.ClassIf(p.clash, "weak:instruments_may_share_family")
 	info.ClassIf(p.clash && p.accepted(), "clash_across_scopes(registry must accept)")
 	info.ClassIf(p.clash && p.accepted() && p.typeConflict, "clash_across_scopes_type_conflict")
